@@ -1705,8 +1705,53 @@ def permuted_args_probe(ctx: Ctx, real: "Real"):
                 ctx.fail("hash:reorder", f"equal normal forms with different hashes: {u1!r} vs {u2!r}", case)
 
 
+def type_alias_probes(ctx: Ctx):
+    """PEP 695 aliases: different parametrisations of one alias are different types (never collapsed: distinct normal forms, all
+    members of a union kept, a predicate for one does not match the other); equal parametrisations in different spellings agree in
+    normal form and hash"""
+    import dataclasses
+    from typing import Optional, Union
+
+    from adaptix import Retort, loader
+    from adaptix._internal.type_tools import normalize_type
+    ns: dict = {}
+    exec("type Items[T] = list[T]\ntype Pair[K, V] = dict[K, V]\ntype Plain = list[int]\n", ns)  # noqa: S102
+    Items, Pair, Plain = ns["Items"], ns["Pair"], ns["Plain"]
+    different = [(Items[int], Items[str]), (Items[int], Items[bool]), (Pair[str, int], Pair[int, str]), (Items[Items[int]], Items[Items[str]]),
+                 (Items[int], Plain), (Items[Optional[int]], Items[int])]
+    same = [(Items[Union[int, str]], Items[Union[str, int]]), (Items[Optional[int]], Items[Union[None, int]]), (Items[int], Items[int])]
+    for a, b in different:
+        case = {"suite": "type-alias", "a": repr(a), "b": repr(b)}
+        ctx.note_case(case, nontrivial=True, kind="type-alias:different")
+        na, nb = normalize_type(a), normalize_type(b)
+        if na == nb:
+            ctx.fail("alias-collapse:normal-form", f"different types {a!r} and {b!r} have equal normal forms", case)
+            continue
+        nu = normalize_type(Union[a, b, None])
+        if len(nu.args) != 3:
+            ctx.fail("alias-collapse:union-members", f"Union[{a!r}, {b!r}, None] normalises to {len(nu.args)} members", case)
+            continue
+        M = dataclasses.make_dataclass("AM", [("x", a), ("y", b)])
+        try:
+            r = Retort(recipe=[loader(a, lambda d: "MARK")])
+            got = r.load({"x": [], "y": [] if "dict" not in repr(b) and "Pair" not in repr(b) else {}}, M) \
+                if "Pair" not in repr(a) else r.load({"x": {}, "y": {}}, M)
+        except Exception as e:  # noqa: BLE001
+            ctx.dist[f"type-alias:probe-raises:{type(e).__name__}"] += 1
+            continue
+        if got.y == "MARK" or got.x != "MARK":
+            ctx.fail("alias-collapse:predicate", f"loader({a!r}, f) in a model with fields x: {a!r}, y: {b!r} gives {got!r}", case)
+    for a, b in same:
+        case = {"suite": "type-alias", "a": repr(a), "b": repr(b)}
+        ctx.note_case(case, nontrivial=True, kind="type-alias:same")
+        na, nb = normalize_type(a), normalize_type(b)
+        if na != nb or hash(na) != hash(nb):
+            ctx.fail("alias-split:normal-form", f"spellings {a!r} and {b!r} of one type differ in normal form or hash", case)
+
+
 def run(ctx: Ctx):
     real = Real()
+    type_alias_probes(ctx)
     permuted_args_probe(ctx, real)
     drv = None
     if ctx.driver_ok:
